@@ -314,6 +314,17 @@ func CheckStress(p Plan) ([]evid.Violation, int) {
 				if st := doProbe(mux, kind, "/fx/svca", "/un.SvcA/Ping"); st != 200 {
 					report("pre-registered SvcA answered %d (kind %d) during registration activity", st, kind)
 				}
+				if kind == 0 {
+					// the same method through its binding with a path variable, plus nested query parameters:
+					// while B1/B2 (other descriptor instances, B2 with another field order) co-own SvcA the
+					// picked handler resolves the route's fields for its own message - by reading the route only
+					res := drive.Serve(mux, drive.Request("GET", "/fx/svca/QUJD", "nest.sub_title=q&nest.leaf.count=2", nil, nil, 0))
+					if res.Panic != nil {
+						report("pre-registered SvcA panicked on its path-variable binding during registration activity: %v", res.Panic)
+					} else if st := res.Rec.Code; st != 200 {
+						report("pre-registered SvcA answered %d on its path-variable binding during registration activity", st)
+					}
+				}
 				// service under registration: joint + monotone visibility
 				tg := multi[(r+i)%len(multi)]
 				seenBefore := okSeenAt.Load() != 0
